@@ -224,6 +224,8 @@ impl Core {
         settings: settings::TlsHostsSettings,
     ) -> io::Result<()> {
         let mut demux = self.context.tls_demux.write().unwrap();
+        #[cfg(trusttunnel_verif)]
+        crate::verif_emit!("ReloadLocked");
 
         if !settings.is_built() {
             settings.validate().map_err(|e| {
@@ -235,6 +237,12 @@ impl Core {
         }
 
         *demux = TlsDemux::new(&self.context.settings, &settings)?;
+        #[cfg(trusttunnel_verif)]
+        crate::verif_emit!(
+            "ReloadSwap",
+            "\"version\":{}",
+            crate::verif::demux::next_version()
+        );
         Ok(())
     }
 
@@ -406,6 +414,8 @@ impl Core {
                 ))
             }
         };
+        #[cfg(trusttunnel_verif)]
+        crate::verif::demux::on_demux_result(&tls_connection_meta);
         log_id!(
             debug,
             client_id,
@@ -776,6 +786,29 @@ impl Core {
             client_random,
             &log_utils::IdChain::empty(),
         )
+    }
+
+    /// verif: run `f` on the demultiplexer in force under the read lock
+    /// (the read side of `on_new_tls_connection`)
+    pub(crate) fn verif_with_tls_demux<R>(&self, f: impl FnOnce(&TlsDemux) -> R) -> R {
+        f(&self.context.tls_demux.read().unwrap())
+    }
+
+    /// verif: the TCP accept path of `listen_tcp` after `accept()`
+    pub(crate) async fn verif_serve_tcp(
+        &self,
+        stream: tokio::net::TcpStream,
+    ) -> Result<(), String> {
+        let client_ip = stream.peer_addr().map_err(|e| e.to_string())?.ip();
+        let client_id =
+            log_utils::IdChain::from(log_utils::IdItem::new(log_utils::CLIENT_ID_FMT, 0));
+        let acceptor = TlsListener::new()
+            .listen(stream)
+            .await
+            .map_err(|e| format!("TLS handshake failed: {}", e))?;
+        Core::on_new_tls_connection(self.context.clone(), acceptor, client_ip, client_id)
+            .await
+            .map_err(|(_, message)| message)
     }
 }
 
